@@ -888,3 +888,169 @@ class Distribution:
         return {"modules": self.modules, "rejected_by_compiler": self.rejected,
                 "reject_reasons": dict(self.reject_reasons.most_common(8)),
                 "features": dict(sorted(self.features.items()))}
+
+
+# ------------------------------------------------- arrays of small padded structures (C20 round 4)
+PADDED_ELEM_COMBOS = [(1, "abits"), (1, "nbits"), (2, "bytes"), (3, "wrap"), (2, "abits"), (3, "bytes"),
+                      (2, "nbits"), (2, "wrap"), (3, "abits"), (3, "nbits")]
+
+
+def _gen_gappy_bits(r, m, names, total_bits, full=False):
+    """A bits type over `total_bits` bits with at least one covered and one uncovered run of bits
+    and (often) a member that is only present under an earlier flag / small uint of the block."""
+    s = Struct("Bt%d" % (len(m.structs) + 1), unit=1)
+    s.fixed_units = total_bits
+    while True:
+        runs, pos = [], 0
+        while pos < total_bits:
+            w = min(total_bits - pos, r.choice([1, 1, 2, 3, 4, 4, 5, 7]))
+            runs.append((pos, w, r.random() < 0.6))
+            pos += w
+        if full:     # a named bits type is as large as its last member's end
+            runs[-1] = (runs[-1][0], runs[-1][1], True)
+        if any(c for _p, _w, c in runs) and not all(c for _p, _w, c in runs):
+            break
+    for pos, w, cov in runs:
+        if not cov:
+            m.features["padded_gap_bits"] += w
+            continue
+        kind = "flag" if w == 1 and r.random() < 0.7 else r.choice(["uint", "uint", "int"])
+        s.fields.append(Field(names.fresh("b"), kind, start=("n", pos), size=("n", w), bits=w))
+    if len(s.fields) >= (3 if full else 2) and r.random() < 0.6:
+        gi = len(s.fields) - (2 if full else 1)
+        g = s.fields[gi]
+        ctl = r.choice(s.fields[:gi])
+        g.cond = ("f", ctl.name) if ctl.kind == "flag" else \
+            ("==", ("f", ctl.name), ("n", r.randint(0, min(3, (1 << (ctl.bits - (ctl.kind == "int"))) - 1))))
+        m.features["padded_bits_conditional"] += 1
+    elif r.random() < 0.5:
+        # `present` flag + value over the remaining bits (the classic optional-value byte)
+        s.fields = [Field(names.fresh("b"), "flag", start=("n", 0), size=("n", 1), bits=1)]
+        vb = total_bits - (2 if full else 1)
+        v = Field(names.fresh("b"), "uint", start=("n", 1), size=("n", vb), bits=vb)
+        v.cond = ("f", s.fields[0].name)
+        s.fields.append(v)
+        if full:
+            s.fields.append(Field(names.fresh("b"), "flag", start=("n", total_bits - 1), size=("n", 1), bits=1))
+        m.features["padded_bits_optional_value"] += 1
+    m.structs.append(s)
+    return s
+
+
+def _gen_padded_elem(r, m, names, w, style):
+    """A fixed-size byte structure of `w` bytes some of whose bits/bytes no (present) field covers."""
+    if w == 1 and style in ("bytes", "wrap"):
+        style = "abits"
+    if style == "wrap":
+        # fixed-size wrapper around a dynamically sized structure with a conditional tail
+        d = Struct("Dy%d" % (len(m.structs) + 1))
+        tag = Field(names.fresh("i"), "uint", start=("n", 0), size=("n", 1), bits=8)
+        v = Field(names.fresh("i"), r.choice(["uint", "int"]), start=("n", 1), size=("n", w - 1), bits=8 * (w - 1))
+        v.cond = ("==", ("f", tag.name), ("n", r.randint(0, 2)))
+        d.fields = [tag, v]
+        d.fixed_units, d.max_units = None, w
+        m.structs.append(d)
+    s = Struct("Pe%d" % (len(m.structs) + 1 + (1 if style == "abits" else 0)))
+    if style in ("abits", "nbits"):
+        bt = _gen_gappy_bits(r, m, names, 8 * w, full=style == "nbits")
+        if style == "abits":
+            bt.inline_in = s
+        s.fields.append(Field(names.fresh("anon" if style == "abits" else "g"), "bits", struct=bt,
+                              start=("n", 0), size=("n", w), bits=8 * w, anonymous=style == "abits"))
+    elif style == "bytes":
+        gap = r.randrange(w - 1)          # the last byte is covered so that the size is w
+        for i in range(w):
+            if i != gap:
+                s.fields.append(Field(names.fresh("i"), r.choice(["uint", "uint", "int"]), start=("n", i),
+                                      size=("n", 1), bits=8))
+        m.features["padded_gap_bytes"] += 1
+    else:
+        s.fields.append(Field(names.fresh("s"), "struct", struct=d, start=("n", 0), size=("n", w)))
+    s.fixed_units = s.max_units = w
+    s.name = "Pe%d" % (len(m.structs) + 1)
+    m.structs.append(s)
+    m.features["padded_elem_%d_%s" % (w, style)] += 1
+    return s
+
+
+def _array_of(names, st, start, count=None, size=None, prev=None):
+    f = Field(names.fresh("a"), "array")
+    f.elem = Field("", "struct", struct=st, args=[])
+    f.elem_units = st.fixed_units
+    f.count = count
+    f.size = ("n", count * st.fixed_units) if count is not None else size
+    if start is None:
+        f.start_is_next, f.start = True, ("+", prev.start, prev.size)
+    else:
+        f.start = start
+    return f
+
+
+def gen_padded_array_module(r, combos=None):
+    """Arrays (fixed and dynamic count; in the top-level structure, in a nested structure and in the
+    elements of an array of structures) of 1/2/3-byte structures that have padding bits/bytes and
+    conditionally present members.  `combos` = [(bytes, style)] for the element structures; styles:
+    abits (anonymous bits block), nbits (field of a named bits type), bytes (byte fields with a gap
+    byte), wrap (fixed-size field holding a dynamically sized structure with a conditional tail).
+    No parameters (Equals on parameterised structures does not compile: pinned finding)."""
+    m = GenModule()
+    names = _Names()
+    m.byte_order = r.choice(["LittleEndian", "BigEndian"])
+    m.features["default_" + m.byte_order] += 1
+    combos = combos or [r.choice(PADDED_ELEM_COMBOS) for _ in range(2)]
+    elems = [_gen_padded_elem(r, m, names, w, st) for w, st in combos]
+    # Mid: fixed size, holds an array of elements, a gap byte and a tail -> usable as array element
+    e0 = r.choice(elems)
+    mid = Struct("Mid%d" % (len(m.structs) + 1))
+    c = r.randint(1, 2)
+    a = _array_of(names, e0, ("n", 0), count=c)
+    gap = r.choice([0, 1])
+    tail = Field(names.fresh("i"), "uint", start=("n", c * e0.fixed_units + gap), size=("n", 1), bits=8)
+    mid.fields = [a, tail]
+    mid.fixed_units = mid.max_units = c * e0.fixed_units + gap + 1
+    m.structs.append(mid)
+    m.features["padded_mid_struct"] += 1
+    # Dyn: count byte + automatically sized array of elements -> nested field of the top structure
+    e1 = r.choice(elems)
+    dyn = Struct("Dn%d" % (len(m.structs) + 1))
+    k = Field(names.fresh("t"), "uint", start=("n", 0), size=("n", 1), bits=8)
+    sz = ("f", k.name) if e1.fixed_units == 1 else ("*", ("f", k.name), ("n", e1.fixed_units))
+    dyn.fields = [k, _array_of(names, e1, ("n", 1), size=sz)]
+    dyn.fixed_units, dyn.max_units = None, 1 + 2 * e1.fixed_units
+    m.structs.append(dyn)
+    # Top
+    top = Struct("Top%d" % (len(m.structs) + 1))
+    n = Field(names.fresh("t"), "uint", start=("n", 0), size=("n", 1), bits=8)
+    top.fields.append(n)
+    prev = n
+    for e in elems:
+        f = _array_of(names, e, None, count=r.randint(1, 3), prev=prev)
+        top.fields.append(f)
+        m.features["padded_array_fixed"] += 1
+        prev = f
+    if r.random() < 0.7:
+        f = _array_of(names, mid, None, count=r.randint(1, 2), prev=prev)
+        top.fields.append(f)
+        m.features["padded_array_of_struct_with_array"] += 1
+        prev = f
+    else:
+        f = Field(names.fresh("s"), "struct", struct=mid, size=("n", mid.fixed_units))
+        f.start_is_next, f.start = True, ("+", prev.start, prev.size)
+        top.fields.append(f)
+        m.features["padded_nested_struct_with_array"] += 1
+        prev = f
+    f = Field(names.fresh("s"), "struct", struct=dyn, size=("n", dyn.max_units))
+    f.start_is_next, f.start = True, ("+", prev.start, prev.size)
+    top.fields.append(f)
+    m.features["padded_nested_dynamic_array"] += 1
+    prev = f
+    e = r.choice(elems)
+    sz = ("f", n.name) if e.fixed_units == 1 else ("*", ("f", n.name), ("n", e.fixed_units))
+    f = _array_of(names, e, None, size=sz, prev=prev)
+    top.fields.append(f)
+    m.features["padded_array_dynamic"] += 1
+    m.structs.append(top)
+    m.tops = [s for s in m.structs if s.unit == 8]
+    m.features["padded_array_module"] += 1
+    m.text = module_text(m)
+    return m
